@@ -43,7 +43,7 @@ DEFAULT = "<default>"       # what every parameter of a recording callable defau
 LITERALS = {"None": None, "0": 0, "''": "", "False": False}
 
 
-def recording_callable(label: str, nout: int, yvals: list[str]):
+def recording_callable(label: str, nout: int | None, yvals: list[str] | None):
     """A callable named `label` that records what it is called with and whose value(s) spell that call out.
 
     Every parameter has the distinctive default DEFAULT, so the observed call lists exactly what was passed: an
@@ -62,12 +62,17 @@ def recording_callable(label: str, nout: int, yvals: list[str]):
         term = label + "(" + ",".join(L.DEFAULT if dflt(a) else L.render(a) for a in args) + "){" + ",".join(
             f"{n}={L.render(v)}" for n, v in sorted(kw.items())) + "}"
         L.CALLS.append([label, term])
+        if nout is None:        # the shared callable: its first argument says how many values to yield (0: return a plain value)
+            return ("V", term) if a0 == 0 else (("V", f"{term}#{i}") for i in range(a0))
         if nout == 1:
             return ("V", term)
         return (("V", f"{term}#{i}") if y == "t" else L.LITERALS[y] for i, y in enumerate(yvals))
 
     f.__name__ = f.__qualname__ = label
     return f
+
+
+SHARED = {"s": recording_callable("s", None, None)}     # ONE function object for every node / case that names it
 
 
 class DictShm:
@@ -115,7 +120,7 @@ def observe(case: dict) -> dict:
             pn, pc = nodes[p - 1], case["nodes"][p - 1]
             # o = which yielded value: fluent nodes declare their outputs in yield order, hand-built ones bind key-sorted (onames)
             inputs.append(pn if pc["nout"] == 1 else pn.get_output(pc["onames"][o] if pc["onames"] else pn.outputs[o]))
-        func = recording_callable(label, nd["nout"], list(nd["yvals"]))
+        func = SHARED[nd["fn"]] if nd["fn"] else recording_callable(label, nd["nout"], list(nd["yvals"]))
         args, kwargs = [item(a) for a in nd["args"]], {k: item(v) for k, v in nd["kwargs"]}
         if nd["onames"]:        # a hand-built node: graph.Node with the payload tuple, outputs as the author wrote them
             node = BaseNode(f"h{j}", [nd["onames"][i - 1] for i in nd["odecl"]], (func, args, kwargs),
@@ -144,7 +149,7 @@ def observe(case: dict) -> dict:
     MEM.shm_client = shm.client()
     MEM.callback = EP.callback = lambda addr, m: out.append(m)
     del CALLS[:]
-    label_to_task = {f"n{j}": n.name for j, n in enumerate(nodes, start=1)}
+    calls = []          # a call is attributed to the task during whose run it was observed
     try:
         psrc = param_source(job.edges)
         for k, node in enumerate(nodes):     # construction order is a topological order
@@ -153,6 +158,8 @@ def observe(case: dict) -> dict:
             publish = {DatasetId(node.name, o) for o in job.tasks[node.name].definition.output_schema}
             with Memory("cb", w) as mem:
                 EP.execute_sequence(TaskSequence(worker=w, tasks=[node.name], publish=publish), mem, PackagesEnv(), rc)
+            calls += [[node.name, t] for _, t in CALLS]
+            del CALLS[:]
         # ---- what was published, read back through the real Memory.provide
         datasets = []
         with Memory("cb", WorkerId("h", "reader")) as mem:
@@ -163,6 +170,6 @@ def observe(case: dict) -> dict:
     finally:
         MEM.shm_client, MEM.callback, EP.callback = old
     return {"names": [n.name for n in nodes], "declared": declared, "coords": coords, "tasks": tasks, "edges": edges,
-            "calls": [[label_to_task[l], t] for l, t in CALLS],
+            "calls": calls,
             "failures": [m.task or "" for m in out if isinstance(m, TaskFailure)],
             "failure_details": [m.detail[:120] for m in out if isinstance(m, TaskFailure)], "datasets": datasets}
